@@ -143,7 +143,7 @@ graph after `global(q)` + `add_to_graph()` of the model again has at least one n
 no directed cycle.  Proof: `topo` visits every node of a DAG after its predecessors (`topo_spec`), every cell
 of the DP table points to the same row, to the row of a predecessor, to row 0 or down the first column
 (`dpRows_tableOK`), so the traceback names nodes in strictly increasing topological rank (`traceLoop_bodyB`),
-and `add_alignment` along such a list admits a rank function again (`addAlignment_rankOK`). -/
+and `add_alignment` along such a list has a rank function again (`addAlignment_rankOK`). -/
 theorem model_align_add_preserves_acyclic (sc : Sc) (g : Poa.Model.G) (q : List Nat)
     (hne : g.labels ≠ [])
     (hwf : ∀ e ∈ g.es, e.1 < g.labels.length ∧ e.2.1 < g.labels.length)
